@@ -34,7 +34,13 @@ CPUS = {
     'z80': (0x51, 1, 'db', 'ds', None),
     'at90s8515': (0x3b, 2, 'data', None, None),
     '320c30': (0x76, 4, 'word', 'bss', None),
+    # the same device with its code segment addressed in words / in bytes (CPU argument): header id and granularity differ
+    'atmega8': (0x3b, 2, 'data', None, None),
+    'atmega8:codesegsize=0': (0x3d, 1, 'data', None, None, 2),
+    # 68000 with PADDING ON: a word at an odd address is preceded by an emitted pad byte 00, a reserved word by a reserved byte
+    '68000p': (0x01, 1, 'dc.b', 'ds.b', '\tpadding on'),
 }
+STMT = {'68000p': '68000'}
 # target -> (initial cpu or None for default, partner cpu for CPU switches, has data segment)
 TARGETS = {
     '68000': ('68000', 'z80', False),
@@ -42,6 +48,8 @@ TARGETS = {
     'avr': ('at90s8515', None, True),
     'c30': ('320c30', None, False),
     'default': (None, 'z80', False),
+    'avrargs': ('atmega8', 'atmega8:codesegsize=0', True),
+    '68000pad': ('68000p', 'z80', False),
 }
 B_FULL = [1, 2, 3, 255, 256, 257, 510, 511, 512, 513, 514, 1024]
 B_Q = [1, 511, 512, 513]
@@ -54,7 +62,7 @@ class Model(object):
         self.lines = []
         self.cpu = cpu or '68000'   # the default CPU is a 68008: same family id and syntax
         if cpu:
-            self.lines.append('\tcpu ' + cpu)
+            self.lines.append('\tcpu ' + STMT.get(cpu, cpu))
         if CPUS[self.cpu][4]:
             self.lines.append(CPUS[self.cpu][4])
         self.pc = 0
@@ -74,10 +82,28 @@ class Model(object):
     def put(self, vals):
         g = self.gran()
         fam = CPUS[self.cpu][0]
+        bpv = CPUS[self.cpu][5] if len(CPUS[self.cpu]) > 5 else g       # bytes per value
         for v in vals:
-            for b in range(g):
-                self.mem[(1, self.pc * g + b)] = (v if b == 0 else 0, fam)
-            self.pc += 1
+            for b in range(bpv):
+                self.mem[(1, g, self.pc * g + b)] = (v if b == 0 else 0, fam)
+            self.pc += bpv // g
+
+    def words(self, n):
+        """68000 dc.w / ds.w under PADDING ON"""
+        fam = CPUS[self.cpu][0]
+        if n:
+            vals = [self.nextval() for _ in range(n)]
+            self.lines.append('\tdc.w ' + ','.join(str(v) for v in vals))
+            if self.pc & 1:
+                self.mem[(1, 1, self.pc)] = (0, fam)
+                self.pc += 1
+            for v in vals:
+                self.mem[(1, 1, self.pc)] = (0, fam)
+                self.mem[(1, 1, self.pc + 1)] = (v, fam)
+                self.pc += 2
+        else:
+            self.lines.append('\tds.w 1')
+            self.pc += (self.pc & 1) + 2
 
     def emit(self, n, style):
         mn = CPUS[self.cpu][2]
@@ -123,7 +149,7 @@ class Model(object):
         elif s == 'cpu':
             if self.partner:
                 self.cpu = self.partner if self.cpu != self.partner else (self.home)
-                self.lines.append('\tcpu ' + self.cpu)
+                self.lines.append('\tcpu ' + STMT.get(self.cpu, self.cpu))
                 if CPUS[self.cpu][4]:
                     self.lines.append(CPUS[self.cpu][4])
             else:
@@ -166,6 +192,11 @@ def build(case):
                 m.emit(int(op[1:]), 'lines')
             elif op[0] == 'B':
                 m.emit(int(op[1:]), 'one')
+            elif op[0] == 'W':
+                if m.cpu == '68000p':
+                    m.words(int(op[1:]))
+                else:
+                    m.emit(1, 'lines')
             else:
                 m.sep(op)
     return m
@@ -182,8 +213,10 @@ def subspaces(tier):
             for ns in itertools.product(B, repeat=3):
                 for sp in itertools.product(seps, repeat=2):
                     for style in ('lines', 'one'):
-                        if style == 'one' and t in ('avr', 'c30'):
+                        if style == 'one' and t in ('avr', 'c30', 'avrargs'):
                             continue
+                        if t == '68000pad':
+                            continue        # only differs from 68000 through the word ops of family (c)
                         if not q and len(B) > 4 and style == 'one' and sp != ('none', 'none') and ns[1] not in B_Q:
                             continue
                         yield {'k': 'a', 't': t, 'ns': list(ns), 'seps': list(sp), 'style': style, 'org': 0 if t == 'default' else 0x100}
@@ -207,9 +240,16 @@ def subspaces(tier):
         for t in TARGETS:
             for k in range(1, n + 1):
                 for s in itertools.product(ops, repeat=k):
-                    if t in ('avr', 'c30') and any(o[0] == 'B' for o in s):
+                    if t in ('avr', 'c30', 'avrargs') and any(o[0] == 'B' for o in s):
+                        continue
+                    if t == '68000pad':
                         continue
                     yield {'k': 'c', 't': t, 'ops': list(s)}
+        pops = ['E1', 'E2', 'E511', 'E512', 'W1', 'W3', 'W0', 'res1', 'org', 'cpu', 'end']
+        for k in range(1, n + 2):
+            for s in itertools.product(pops, repeat=k):
+                if any(o[0] == 'W' for o in s):
+                    yield {'k': 'c', 't': '68000pad', 'ops': list(s)}
     subs.append(('c:op-sequences<=%d' % n, fam_c()))
     return subs
 
@@ -251,14 +291,14 @@ def evaluate(case):
             if want_g is None or r.gran != want_g:
                 return core.R(False, 'header', 'header/granularity', 'record %r has granularity %s, documented %s on %s' % (r, r.gran, want_g, d))
         for i, b in enumerate(r.data):
-            k = (r.seg, r.start * r.gran + i)
+            k = (r.seg, r.gran, r.start * r.gran + i)
             if k in got:
-                return core.R(False, 'duplicate', 'bytes/duplicate', 'address %x of segment %d is in the code file twice on %s' % (k[1], k[0], d))
+                return core.R(False, 'duplicate', 'bytes/duplicate', 'address %x of segment %d is in the code file twice on %s' % (k[2], k[0], d))
             got[k] = (b, r.cpu)
     if got != m.mem:
         diff = [a for a in sorted(set(got) | set(m.mem)) if got.get(a) != m.mem.get(a)]
         kind = 'lost' if len(got) < len(m.mem) else 'extra' if len(got) > len(m.mem) else 'shifted-or-reordered'
-        return core.R(False, 'bytes', 'bytes/' + kind, '%d addresses differ, first %s: file %s model %s on %s' % (len(diff), [hex(x) for x in diff[0]], got.get(diff[0]), m.mem.get(diff[0]), d))
+        return core.R(False, 'bytes', 'bytes/' + kind, '%d addresses differ, first (segment, granularity, byte address) %s: file %s model %s on %s' % (len(diff), [hex(x) for x in diff[0]], got.get(diff[0]), m.mem.get(diff[0]), d))
     if m.entry is None:
         if entries:
             return core.R(False, 'entry', 'entry/spurious', 'entry record without END argument on ' + d)
